@@ -1,5 +1,6 @@
 import T4V.Num
 import T4V.Sexp
+import T4V.Text.OptTokens
 /-!
 # Reference semantics of a TRIPOLI-4 geometry file (spec side, import-free)
 
@@ -251,8 +252,8 @@ def T4File.wellFormed {α} (f : T4File α) : Bool := f.report.ok
 
 /-! ## Reader for the emitted text (Float instance) -/
 
-private def words (s : String) : List String :=
-  (s.split (fun c => c == ' ' || c == '\t' || c == '\r')).toList.map (·.toString) |>.filter (· ≠ "")
+/-- the blank-separated words of a line (the six ASCII blanks; `T4V.CC.splitWs`) -/
+def words (s : String) : List String := (CC.splitWs s.toList).map String.ofList
 
 def isKw (t : String) : Bool :=
   t == "PLUS" || t == "MINUS" || t == "UNION" || t == "INTE" || t == "FICTIVE" || t == "ENDV"
